@@ -149,3 +149,25 @@ def eventsRows (env : PrintEnv) : List Event → Nat → List ERow
   | .warning _ :: rest, k => .info k :: eventsRows env rest (k + 1)
   | .marshal m :: rest, k =>
     .field (typeNameOf m.ty) m.path.str (match m.val with | none => "..." | some _ => valueText env m) :: eventsRows env rest k
+
+/-! ## the shape of event streams on which the pretty printer cannot fail (C14) -/
+
+/-- the run of events after a byte-buffer parent that the printer folds into the buffer's row: up to the first marshal event
+that is not a child (same parent path, same name), every child carries a value -/
+def bytesRun (parent : Path) : List Event → Bool
+  | [] => true
+  | .warning _ :: rest => bytesRun parent rest
+  | .marshal c :: rest => if isChild parent c.path then c.val.isSome && bytesRun parent rest else true
+
+/-- every byte-buffer parent of the stream is followed by such a run -/
+def kidsOk : List Event → Bool
+  | [] => true
+  | .warning _ :: rest => kidsOk rest
+  | .marshal p :: rest => (if p.ty = .listOf "BYTE" then bytesRun p.path rest else true) && kidsOk rest
+
+/-- a value event's class is a known primitive class -/
+def resolvesB (env : PrintEnv) : Event → Bool
+  | .marshal m => m.val.isNone || (env.prim m.vclass).isSome
+  | .warning _ => true
+
+def shapedB (env : PrintEnv) (evs : List Event) : Bool := evs.all (resolvesB env) && kidsOk evs
